@@ -48,6 +48,26 @@ def run(ctx, rep):
             if other in worlds:
                 n_rt += check_runtimes(cfg, w, other, worlds[other], rep)
     rep.floor("runtime_pairs", n_rt, 50, ctx.tier)
+    # the stream adaptors (Read::read / poll_read of readers and linkers) are written per runtime with different buffer
+    # types (&mut [u8] vs tokio's ReadBuf); each is compared with ONE oracle — "the checker is fed exactly the bytes the
+    # inner read just delivered" (C01 R3, C19 b) — which forces the sync, async-std and tokio copies to agree
+    from ..framework import Report
+    from . import c01
+    from .c01 import reader_types
+    from ..world import strip_refs as _sr
+    for cfg, w in worlds.items():
+        base, wrap = reader_types(w)
+        sub = Report("C01")
+        for lf in w.prog.fns.values():
+            o = lf.outer
+            if o.name in ("read", "poll_read") and _sr(o.impl_self or "") in base and o.impl_trait:
+                c01.check_stream_impl(cfg, w, sub, lf)
+        for (c_, rule, k, desc, ok) in sub.obligations:
+            if ok:
+                rep.ob(cfg, "oracle/" + rule, k, desc)
+        for k, v in sub.violations.items():
+            rep.violation("oracle:%s" % k, "this flavour's stream reader deviates from the oracle its siblings satisfy — " + v.msg, loc=v.loc, config=cfg,
+                          rule="oracle/" + (v.rule or ""))
     return rep
 
 
